@@ -379,6 +379,12 @@ def rule_resvec(ctx, M):
                 okp, bad = bi.must_reach([oe[1]], [pushes[0].block], list(bi.return_blocks) + ([lp[0]] if lp else []))
             if not okp:
                 probs.append("an Ok item is not pushed onto the output vector")
+            # flush is progress(): after an Ok item the group is awaited again - the loop ends only on None or Err,
+            # otherwise futures still in flight are dropped unfinished and their results (or a late error) are lost
+            if oe:
+                r_ok = bi.reach_from_edges([oe], stop_blocks=[lp[0]] if lp else [])
+                if not lp or lp[0] not in r_ok or any(x in r_ok for x in bi.return_blocks):
+                    probs.append("progress (which is also flush) returns after an Ok item instead of draining the group")
             other_w = [blk for blk, pt, v, sp in scan.field_writes(bi) if pt == out and blk not in w]
             if other_w:
                 probs.append("the output is overwritten elsewhere")
